@@ -692,6 +692,29 @@ fn run_non_regular(sink: &mut Sink) -> (Verdict, Option<u64>, Value) {
         use std::os::unix::fs::OpenOptionsExt;
         targets.push(("fifo", File::options().read(true).custom_flags(libc::O_NONBLOCK).open(&fifo).ok()));
     }
+    // a socket: as a descriptor (one end of a pair) and as a bound path's metadata
+    {
+        use std::os::fd::OwnedFd;
+        if let Ok((a, _b)) = std::os::unix::net::UnixStream::pair() {
+            targets.push(("socket", Some(File::from(OwnedFd::from(a)))));
+        }
+    }
+    let sock_path = dir.0.join("sock");
+    let _listener = std::os::unix::net::UnixListener::bind(&sock_path).ok();
+    let link_path = dir.0.join("link");
+    let plain_path = dir.0.join("plain");
+    let _ = std::fs::write(&plain_path, b"plain");
+    let _ = std::os::unix::fs::symlink(&plain_path, &link_path);
+    // metadata that says "socket" / "symlink" / "directory", handed over with an ordinary file
+    for (what, md) in [("socket-metadata", std::fs::metadata(&sock_path).ok()), ("symlink-metadata", std::fs::symlink_metadata(&link_path).ok()), ("directory-metadata", std::fs::metadata(&dir.0).ok())] {
+        if let (Some(md), Ok(f)) = (md, File::open(&plain_path)) {
+            match crate::util::catch(|| Crf::new_with_metadata(f, &md, http::HeaderMap::new()).is_ok()) {
+                Ok(false) => sink.count("non_regular_refused"),
+                Ok(true) => return (Verdict::viol(format!("non-regular-accepted|{}", what), format!("ChunkedReadFile::new_with_metadata accepted metadata of a {}", what)), None, desc),
+                Err(p) => return (Verdict::viol(format!("panic@{}", norm_loc(&p)), p), None, desc),
+            }
+        }
+    }
     for (what, f) in targets {
         let f = match f {
             Some(f) => f,
@@ -754,7 +777,7 @@ impl Prop for C18 {
         "fault_enumeration"
     }
     fn rule(&self, ctx: &Ctx) -> String {
-        format!("real temporary files of sizes {:?} (position-hash content) on a multi-thread tokio runtime. Per size: every range with start <= end over {{0, 1, 65535, 65536, 65537, 131071, 131072, size-1, size}} x read cap {{none, 65536, 4097, 1}} (hook: short reads); truncation to {{0, start, start+1, 65535, 65536, end-1}} before poll 0, 1 and 2; the same through serve() with a Range header; metadata/ETag histories (two instances, length +1, mtime +-1ns / +-1s, replacement by a same-size same-mtime copy); construction on a directory, /dev/null and a FIFO; one entity streamed 1..6 times and then truncated (files of 1 .. 200001 bytes); sequences of ranges on one entity beginning with the tail of the file, and tail-first multi-range requests through serve; sparse files of 70 MiB - 2 GiB streamed completely (thousands of consecutive full reads); 16 tasks streaming unaligned ranges of one shared entity concurrently. Non-trivial = distinct case judged (bytes compared, or truncation answered by an error within range-length+8 ready polls)", c18_sizes(ctx))
+        format!("real temporary files of sizes {:?} (position-hash content) on a multi-thread tokio runtime. Per size: every range with start <= end over {{0, 1, 65535, 65536, 65537, 131071, 131072, size-1, size}} x read cap {{none, 65536, 4097, 1}} (hook: short reads); truncation to {{0, start, start+1, 65535, 65536, end-1}} before poll 0, 1 and 2; the same through serve() with a Range header; metadata/ETag histories (two instances, length +1, mtime +-1ns / +-1s, replacement by a same-size same-mtime copy); construction on a directory, /dev/null, a FIFO and a socket, and with metadata describing a socket / symlink / directory; one entity streamed 1..6 times and then truncated (files of 1 .. 200001 bytes); sequences of ranges on one entity beginning with the tail of the file, and tail-first multi-range requests through serve; sparse files of 70 MiB - 2 GiB streamed completely (thousands of consecutive full reads); 16 tasks streaming unaligned ranges of one shared entity concurrently. Non-trivial = distinct case judged (bytes compared, or truncation answered by an error within range-length+8 ready polls)", c18_sizes(ctx))
     }
     fn n_blocks(&self, ctx: &Ctx) -> usize {
         c18_sizes(ctx).len() * 4 + 1 + if ctx.leg.slow() { 1 } else { 16 + 3 + 2 }
